@@ -207,8 +207,50 @@ def same_key(E, R, public):
         _real_ckd(E, R, False)
 
 
+def generate_twice(E, R, ln1, ln2, same_account):
+    from props import C06
+    return C06.generate_twice(E, R, False, ln1, ln2, same_account)
+
+
+def children_real(E, R, public):
+    """bulk child generation with the real ckd over an interval that may cross 2^31: every child equals the
+    single-step derivation of its own index (hardened ones by the hardened rule; refused on public nodes)"""
+    _real_ckd(E, R, True)
+    try:
+        k, kb = cm.sym_scalar(E, "k")
+        c = E.bytes("c", 32)
+        a = E.bv("a", 32, hi=2 ** 32 - 3)
+        node = R.bip32.PubKeyNode(key=E.H.sec(k), chain_code=c) if public else R.bip32.PrvKeyNode(key=kb, chain_code=c)
+        r = E.run(node.generate_children, (a, a + 2))
+        refs = [cm.ckd_priv(E, k, c, a + j) for j in range(2)]
+        if any(x[0] == "invalid" for x in refs):
+            return "invalid"
+        if public and (bool(a + 1 >= HARD) if E.symbolic else a + 1 >= HARD):
+            E.check(isinstance(r, Raised), "bulk generation on a public node refuses an interval reaching hardened indexes")
+            return "refused"
+        if isinstance(r, Raised):
+            if public:
+                return "public-IL0"
+            E.fail("bulk generation works for valid children")
+            return "raised"
+        E.check(len(r) == 2, "bulk generation yields one child per index")
+        for j, ch in enumerate(r[:2]):
+            exp_key = E.H.sec(refs[j][0]) if public else ser(refs[j][0], 32)
+            E.check_eq([ch.key, ch.chain_code, ch.index], [exp_key, refs[j][1], a + j],
+                       "bulk-generated child equals the single-step derivation of its index")
+        return "ok"
+    finally:
+        _real_ckd(E, R, False)
+
+
 def cases(tier):
     cs = []
+    for (l1, l2, same) in ((1, 2, True), (2, 1, True)):
+        cs.append(Case("generate_twice[%d,%d]" % (l1, l2), "generate_twice", dict(ln1=l1, ln2=l2, same_account=same), weight=40,
+                       max_paths=20000, need=("second request: BIP84 account xpub: SLIP-132 version and fields of the account node",)))
+    for pub in (False, True):
+        cs.append(Case("children_real[public=%s]" % pub, "children_real", dict(public=pub), weight=20, max_paths=5000,
+                       need=("bulk-generated child equals the single-step derivation of its index",)))
     for a in OPS:
         for b in OPS:
             cs.append(Case("pair[%s,%s]" % (a, b), "pair", dict(a=a, b=b, testnet=(len(a) + len(b)) % 2 == 0), weight=5, max_paths=5000,
